@@ -33,6 +33,12 @@ type c05Base struct {
 // c05Occupancy reads the allocators at a quiescent point under the code's own locks
 // (the unguarded UP4 maps are read when no association is processing anything).
 func c05Occupancy(a *vAgent) map[string]int {
+	var out map[string]int
+	a.quiesced(func() { out = c05OccupancyLocked(a) })
+	return out
+}
+
+func c05OccupancyLocked(a *vAgent) map[string]int {
 	out := map[string]int{}
 	u := a.iface.upf
 	if u.ippool != nil {
@@ -225,6 +231,13 @@ func c05Scenario(res *vResult, rng *rand.Rand, up4 bool, ending, prefix string, 
 			// the failing write may not have been reached; then this is a normal session
 			ups = append(ups, c01UPSEID(m))
 			cps = append(cps, e.CPSEID)
+			if er, ok := m.(*message.SessionEstablishmentResponse); ok {
+				for _, c := range er.CreatedPDR {
+					if u, err := c.UEIPAddress(); err == nil && u.IPv4Address != nil {
+						ues = append(ues, vIP4(u.IPv4Address.String()))
+					}
+				}
+			}
 		}
 	}
 	if !establish(1) {
@@ -238,6 +251,10 @@ func c05Scenario(res *vResult, rng *rand.Rand, up4 bool, ending, prefix string, 
 		seq++
 		f := mkEst(0, 1).FARs[1]
 		f.Action, f.Fwd, f.HasDst, f.DstIf, f.OHC, f.OHCTeid, f.OHCIP = ActionForward, true, true, ie.DstInterfaceAccess, true, 0x7777, "198.18.0.77"
+		if ending == "report-context-not-found" {
+			// the downlink FAR must keep asking for notification
+			f = vFARSpec{ID: f.ID, Action: ActionBuffer | ActionNotify, Fwd: true, HasDst: true, DstIf: ie.DstInterfaceAccess}
+		}
 		mod := vModSpec{Seq: seq, SEID: ups[0], UpFAR: []vFARSpec{f}}
 		if prefix == "rejected-mod-halfway" && !up4 {
 			// valid removals followed by an unknown rule id: rejected after partial application
@@ -301,7 +318,7 @@ func c05Scenario(res *vResult, rng *rand.Rand, up4 bool, ending, prefix string, 
 				}
 			}
 			if !got {
-				res.inconclusive("no Session Report Request for the injected datapath report (ending report-context-not-found)")
+				res.inconclusive(fmt.Sprintf("no Session Report Request for the injected datapath report (ending report-context-not-found, up4=%v prefix=%s session %d of %d, ues=%d)", up4, prefix, i, len(ups), len(ues)))
 				return
 			}
 		}
